@@ -266,7 +266,7 @@ type Pend struct {
 	Name  xml.Name
 	Reads int
 	// Fate: "" = the call is still waiting when the input is served; "f" = its transmission
-	// failed (the context had ended before it started writing) and the call returned the error;
+	// failed (the output is closed or broken: only with closed0 / PreBroken) and the call returned the error;
 	// "g" = the request went out and the caller gave up waiting (its context ended) before the
 	// input is served.  In both cases nobody waits for a response any more.
 	Fate string
@@ -329,12 +329,13 @@ func startPends(pends []Pend, delivered *[]string, mu *sync.Mutex) func(s *xmpp.
 			q := xml.StartElement{Name: xml.Name{Space: "urn:q", Local: "q"}}
 			switch p.Fate {
 			case "f":
-				// the transmission fails: the context has ended before the call starts writing
-				dead, kill := context.WithCancel(context.Background())
-				kill()
-				if resp, err := s.SendIQ(dead, xmlstream.Wrap(xmlstream.Wrap(nil, q), st)); err == nil && resp != nil {
+				// the transmission fails: the output has been closed or was left inside an element
+				// (caseOpt.closed0 / Opts.PreBroken), the call returns that error
+				fctx, stop := context.WithTimeout(context.Background(), 3*time.Second)
+				if resp, err := s.SendIQ(fctx, xmlstream.Wrap(xmlstream.Wrap(nil, q), st)); err == nil && resp != nil {
 					resp.Close()
 				}
+				stop()
 				continue
 			case "g":
 				// the request goes out, then the caller's context ends: the call returns
@@ -411,9 +412,23 @@ func (c *ctx) checkO(co caseOpt, ns string, body []byte, progs []Prog, class str
 	}
 	var mu sync.Mutex
 	var deliveredIDs []string
-	if len(co.pends) > 0 {
-		before = startPends(co.pends, &deliveredIDs, &mu)
+	allOver := true
+	for _, p := range co.pends {
+		allOver = allOver && p.Fate != ""
 	}
+	if len(co.pends) > 0 {
+		sp := startPends(co.pends, &deliveredIDs, &mu)
+		first := before
+		before = func(s *xmpp.Session, out *common.SafeBuffer) func() {
+			if first != nil {
+				first(s, out)
+			}
+			return sp(s, out)
+		}
+	}
+	// the protocol line names the table of requests unless the case also has a closed / broken
+	// output and no request is waiting any more (the table is empty then: `servex`)
+	usePW := len(co.pends) > 0 && !(anyClose && allOver)
 	res := ServeOpt(co.opt, ns, local, remote, body, progs, nil, before)
 	line := CaseLine(ns, res.LocalBare, toks, progs)
 	if anyClose {
@@ -427,7 +442,7 @@ func (c *ctx) checkO(co caseOpt, ns string, body []byte, progs []Prog, class str
 		line = "servex " + cf + strings.TrimPrefix(line, "serve")
 	}
 	pd, rd := encPends(co.pends)
-	if len(co.pends) > 0 {
+	if usePW {
 		line = strings.Join([]string{"servepw", NsField(ns), common.HexS(res.LocalBare), JidMap(toks), pd, rd, common.EncToks(toks), EncProgs(progs)}, " ")
 	}
 	line = MarkWS(line, ws)
@@ -457,7 +472,7 @@ func (c *ctx) checkO(co caseOpt, ns string, body []byte, progs []Prog, class str
 		r.Fail("no-panic", "panic", lines, res.Panic)
 		return
 	}
-	if len(co.pends) > 0 {
+	if usePW {
 		mu.Lock()
 		var dl []string
 		for _, d := range deliveredIDs {
@@ -1487,19 +1502,23 @@ func Run(r *common.Run) error {
 	// failed, or the caller gave up waiting.  Nobody waits any more: a response with that id is
 	// an element like any other and goes to the handler, in arrival order
 	for _, ns := range []string{NSClient, NSServer} {
-		for _, fate := range []string{"f", "g"} {
-			for ri, resp := range responses {
-				for fi, fol := range followers {
-					for pi, pn := range []xml.Name{{Local: "iq"}, {Space: ns, Local: "iq"}} {
-						if ns == NSServer && (ri+fi+pi)%2 != 0 {
-							continue
-						}
-						ps := []Prog{progReads(2, "ok"), progReads(40, "ok"), progReads(0, "ok"), progReads(1, "ok")}
-						c.checkO(caseOpt{opt: Opts{FailAfter: -1}, pends: []Pend{{ID: "p1", Name: pn, Reads: -1, Fate: fate}}}, ns, []byte(`<message id="pre"/>`+resp+fol+"</stream:stream>"), ps, "request-over")
-						// another request is still waiting
-						c.checkO(caseOpt{opt: Opts{FailAfter: -1}, pends: []Pend{{ID: "p2", Name: name("iq"), Reads: 2}, {ID: "p1", Name: pn, Reads: -1, Fate: fate}}}, ns,
-							[]byte(resp+strings.ReplaceAll(responses[0], "p1", "p2")+fol+"</stream:stream>"), ps, "request-over")
+		for ri, resp := range responses {
+			for fi, fol := range followers {
+				for pi, pn := range []xml.Name{{Local: "iq"}, {Space: ns, Local: "iq"}} {
+					if ns == NSServer && (ri+fi+pi)%2 != 0 {
+						continue
 					}
+					ps := []Prog{progReads(2, "ok"), progReads(40, "ok"), progReads(0, "ok"), progReads(1, "ok")}
+					over := []Pend{{ID: "p1", Name: pn, Reads: -1, Fate: "g"}}
+					c.checkO(caseOpt{opt: Opts{FailAfter: -1}, pends: over}, ns, []byte(`<message id="pre"/>`+resp+fol+"</stream:stream>"), ps, "request-over")
+					// another request is still waiting
+					c.checkO(caseOpt{opt: Opts{FailAfter: -1}, pends: []Pend{{ID: "p2", Name: name("iq"), Reads: 2}, over[0]}}, ns,
+						[]byte(resp+strings.ReplaceAll(responses[0], "p1", "p2")+fol+"</stream:stream>"), ps, "request-over")
+					// the transmission of the request failed: the output was closed / left broken
+					failed := []Pend{{ID: "p1", Name: pn, Reads: -1, Fate: "f"}}
+					fol2 := strings.ReplaceAll(fol, `type="get"`, `type="result"`)
+					c.checkO(caseOpt{closed0: true, opt: Opts{FailAfter: -1}, pends: failed}, ns, []byte(`<message id="pre"/>`+resp+fol2+"</stream:stream>"), ps, "request-failed")
+					c.checkO(caseOpt{opt: Opts{FailAfter: -1, PreBroken: true}, pends: failed}, ns, []byte(resp+fol2+`<presence/>`+resp+"</stream:stream>"), ps, "request-failed")
 				}
 			}
 		}
@@ -1585,7 +1604,7 @@ func Run(r *common.Run) error {
 			if rnd.Chance(1, 3) {
 				pn = xml.Name{Space: []string{NSClient, NSServer}[rnd.Intn(2)], Local: "iq"}
 			}
-			pends = append(pends, Pend{ID: id, Name: pn, Reads: rnd.Intn(8) - 1, Fate: []string{"", "", "", "f", "g"}[rnd.Intn(5)]})
+			pends = append(pends, Pend{ID: id, Name: pn, Reads: rnd.Intn(8) - 1, Fate: []string{"", "", "", "g"}[rnd.Intn(4)]})
 		}
 		c.checkO(caseOpt{opt: Opts{FailAfter: -1}, pends: pends}, ns, []byte(body), ps, "random-pending")
 	}
